@@ -129,6 +129,14 @@ func (e *c09Env) nat(id string) int {
 }
 
 func (e *c09Env) emit(op, res string) {
+	// every generated operation with a side condition in C09's theorems (OpOK') is first
+	// checked by the model to lie inside that proven domain
+	for _, pre := range []string{"create ", "wfull ", "winc ", "crashclose ", "reap "} {
+		if strings.HasPrefix(op, pre) {
+			e.ops = append(e.ops, "admissible "+op)
+			e.impl = append(e.impl, "yes")
+		}
+	}
 	e.ops = append(e.ops, op)
 	e.impl = append(e.impl, res)
 }
